@@ -4,7 +4,7 @@ from engine import atoms
 from engine.rulelib import fnview
 from engine.cfg import render, strip_ref, peel, subexprs
 
-CRATES = ["lightning_signer"]
+CRATES = ["lightning_signer", "vls_persist"]
 LS = "lightning_signer::"
 MKM = LS + "signer::my_keys_manager::MyKeysManager"
 KD = LS + "signer::derive::KeyDerive"
@@ -226,6 +226,26 @@ def r183(ctx):
                f"restart derives channel keys from `{name}` = `{render(inner)[:140]}`: not the initial channel id under which "
                f"the entry is stored (a permanent id yields different keys after restart)", where=f"{rb.file}:{ln}",
                sample="keys <- f(channel_id0) where (channel_id0, entry) in persister.get_node_channels()")
+    # ... and the persister hands back the id it stored the entry under (the suffix of the storage key), not an id taken
+    # from the entry's contents (the permanent id is stored *inside* the entry)
+    if "vls_persist" in {bb.d.krate for bb in p.bodies.values()}:
+        ng = 0
+        for g in [bb for bb in p.bodies.values() if bb.d.krate == "vls_persist" and bb.name.endswith("::get_node_channels") and "KVVPersister" in bb.name]:
+            gv = fnview(ctx, g, policy=False)
+            for bi, c in g.calls():
+                nm = c.callee.name if c.callee else ""
+                if nm.endswith("Vec::<T, A>::push") and len(c.args) > 1:
+                    e = gv.expr(c.args[1])
+                    first = e[1][0] if e[0] == "tuple" and e[1] else e
+                    id_part = render(first)
+                    from_key = first[0] == "call" and first[1].endswith("ChannelId::new") and "extract_key_suffix(" in id_part
+                    uses_entry_id = any(x[0] == "field" and x[3] == "id" and x[2].endswith("ChannelEntry") for x in subexprs(first))
+                    ng += 1
+                    ctx.ob("R18.3", from_key and not uses_entry_id, f"{g.name}/returns-store-key",
+                           f"get_node_channels returns `{id_part[:140]}` as a channel's initial id: it must be the id the entry is stored "
+                           f"under (the key suffix); an id read from the entry is the permanent id and yields different keys after a restart",
+                           where=f"{g.file}:{c.line}", sample="(ChannelId::new(extract_key_suffix(prefix, key)), entry)")
+        ctx.floor("R18.3", "pairs pushed by KVVPersister::get_node_channels", ng, 1)
     n = 0
     for adt in (STUB, CH):
         for bb, bi, si, s in R.constructions(p, adt):
